@@ -174,6 +174,61 @@ pub(super) fn ensure_runtime_expression_compatible<S: GraphSnapshot>(
             ensure_runtime_expression_compatible(&binary.left, row, snapshot, params)?;
             ensure_runtime_expression_compatible(&binary.right, row, snapshot, params)
         }
+        // any/all/none/single(x IN list WHERE pred): the predicate is checked once per element
+        // with the element bound, as for a list comprehension.
+        Expression::FunctionCall(call)
+            if call.name.starts_with("__quant_") && call.args.len() == 3 =>
+        {
+            ensure_runtime_expression_compatible(&call.args[1], row, snapshot, params)?;
+            if let (Expression::Variable(variable), Value::List(items)) = (
+                &call.args[0],
+                crate::evaluator::evaluate_expression_value(&call.args[1], row, snapshot, params),
+            ) {
+                for item in items {
+                    let scoped_row = row.clone().with(variable.clone(), item);
+                    ensure_runtime_expression_compatible(
+                        &call.args[2],
+                        &scoped_row,
+                        snapshot,
+                        params,
+                    )?;
+                }
+            }
+            Ok(())
+        }
+        // reduce(acc = init, x IN list | step): the step is checked once per element with the
+        // accumulator and the element bound.
+        Expression::FunctionCall(call) if call.name == "__reduce" && call.args.len() == 5 => {
+            ensure_runtime_expression_compatible(&call.args[1], row, snapshot, params)?;
+            ensure_runtime_expression_compatible(&call.args[3], row, snapshot, params)?;
+            if let (Expression::Variable(accumulator), Expression::Variable(variable)) =
+                (&call.args[0], &call.args[2])
+                && let Value::List(items) =
+                    crate::evaluator::evaluate_expression_value(&call.args[3], row, snapshot, params)
+            {
+                let mut acc =
+                    crate::evaluator::evaluate_expression_value(&call.args[1], row, snapshot, params);
+                for item in items {
+                    let scoped_row = row
+                        .clone()
+                        .with(accumulator.clone(), acc)
+                        .with(variable.clone(), item);
+                    ensure_runtime_expression_compatible(
+                        &call.args[4],
+                        &scoped_row,
+                        snapshot,
+                        params,
+                    )?;
+                    acc = crate::evaluator::evaluate_expression_value(
+                        &call.args[4],
+                        &scoped_row,
+                        snapshot,
+                        params,
+                    );
+                }
+            }
+            Ok(())
+        }
         Expression::FunctionCall(call) => {
             for arg in &call.args {
                 ensure_runtime_expression_compatible(arg, row, snapshot, params)?;
